@@ -10,6 +10,24 @@ import (
 
 func c02Gen(r *rand.Rand, i int) *genReq {
 	method := methods[i%len(methods)]
+	if r.Intn(12) == 0 {
+		// an otherwise valid request violating one documented constraint (all kinds of validation errors are part of
+		// histories and of concurrent traffic)
+		for try := 0; try < 20; try++ {
+			cst := constraints[r.Intn(len(constraints))]
+			ok := cst.methods == nil
+			for _, m := range cst.methods {
+				if m == method {
+					ok = true
+				}
+			}
+			if ok {
+				g := validBase(method, r)
+				cst.apply(g.M)
+				return g
+			}
+		}
+	}
 	o := genOpts{method: method, nBiases: r.Intn(4), minCrit: 2, maxCrit: 5, minAlt: 2, maxAlt: 6, negValues: r.Intn(4) == 0}
 	if method == "choquetIntegral" {
 		o.maxCrit = 6 // up to 7 criteria after an adding bias (size thresholds in the power-set handling)
@@ -24,6 +42,17 @@ func c02Gen(r *rand.Rand, i int) *genReq {
 				if r.Intn(2) == 0 {
 					cv[k] = base + float64(r.Intn(16))*1e-6
 				}
+			}
+		}
+	}
+	if method != "owa" && method != "choquetIntegral" && r.Intn(6) == 0 {
+		// alternatives may carry values for criteria that are not declared (only the declared ones are required)
+		for _, a := range g.M["knownAlternatives"].([]interface{}) {
+			if r.Intn(2) == 0 {
+				a.(M)["criteria"].(M)["zz_undeclared"] = quarter(r, 0, 40)
+			}
+			if r.Intn(3) == 0 {
+				a.(M)["criteria"].(M)["aa_undeclared"] = quarter(r, 0, 40)
 			}
 		}
 	}
